@@ -57,17 +57,23 @@ MemberOps == {"sq", "tq", "smut", "sadd", "sdel", "sset", "sclone", "sinv", "tmu
 \*   (MC_Cache.Phase) -- every such call sequence, not one per model state
 PatC == {"PCfit", "PCisc", "PCcov"}
 PatM == {"PMfit", "PMisc", "PMcov"}
+\*   "PX*": TWO live suites of two tests each; histories  [query both] cross_over [query] mutate query query
+\*   (MC_Cache.PhaseNextX): direct cross_over between live suites, then one is mutated, both are asked
+PatX == {"PXfit", "PXisc", "PXcov"}
+PatXOps == {"sq", "sxo", "smut"}
 FocusC == {"Cfit", "Cisc", "Ccov"} \cup PatC
 FocusM == {"Mfit", "Misc", "Mcov"} \cup PatM
-KindOf(m) == IF m \in {"Cfit", "Mfit", "PCfit", "PMfit"} THEN "fit"
-             ELSE IF m \in {"Cisc", "Misc", "PCisc", "PMisc"} THEN "isc" ELSE "cov"
+KindOf(m) == IF m \in {"Cfit", "Mfit", "PCfit", "PMfit", "PXfit"} THEN "fit"
+             ELSE IF m \in {"Cisc", "Misc", "PCisc", "PMisc", "PXisc"} THEN "isc" ELSE "cov"
 PatMOps == {"sq", "tq", "smut", "sxo", "sadd", "sadds", "sdel", "sset", "sclone"}
 ModeOps(m) == IF m = "T" THEN TestOps ELSE IF m = "S" THEN SuiteOps
               ELSE IF m \in PatM THEN PatMOps
+              ELSE IF m \in PatX THEN PatXOps
               ELSE IF m \in FocusC THEN CloneOps ELSE IF m \in FocusM THEN MemberOps ELSE AllOps
 ModesAll == {"T", "S"} \cup FocusC \cup FocusM
 ModesDesign == ModesAll \ (PatC \cup PatM)
 ModesA == {"A"}
+ModesX == PatX
 ModesSim == {"A"} \cup FocusC \cup FocusM
 
 TIds == 1..NT
@@ -106,14 +112,14 @@ Acts(W0) ==
   IN {act \in cand : /\ act.op \in Ops /\ act.op \in ModeOps(W0.mode) /\ Enabled(W0, act)
                      /\ (act.op = "tclone" => Cardinality(lt) < MaxTop)
                      /\ ((act.op = "tq" /\ W0.mode \in {"S"} \cup FocusM) => W0.t[act.a].owner # 0)
-                     /\ ((IsQuery(act) /\ W0.mode \in FocusC \cup FocusM) =>
+                     /\ ((IsQuery(act) /\ W0.mode \in FocusC \cup FocusM \cup PatX) =>
                             (act.k = KindOf(W0.mode) /\ act.f \in {"f1", "g1"}))}
 
 (* the outcomes the operator code admits; fresh content versions come from the clock *)
 OutRec(id, c, h, u, d) == [id |-> id, c |-> c, chg |-> h, sut |-> u, did |-> d]
 Same(W0, m) == OutRec(m, W0.t[m].c, W0.t[m].chg, W0.t[m].sut, FALSE)
 Cands(W0, m, newv) ==
-  IF Coarse \/ W0.mode \in PatC \cup PatM
+  IF Coarse \/ W0.mode \in PatC \cup PatM \cup PatX
   THEN {OutRec(m, W0.t[m].c, W0.t[m].chg, W0.t[m].sut, TRUE), OutRec(m, newv, TRUE, TRUE, TRUE)}
   ELSE {OutRec(m, c, h, u, TRUE) : c \in {W0.t[m].c, EmptyV, newv}, h \in BOOLEAN, u \in BOOLEAN}
 
@@ -131,6 +137,10 @@ Outs(W0, act) ==
     [] act.op = "txo" ->
          {[ts |-> <<o>>, added |-> <<>>] :
             o \in {x \in Cands(W0, act.a, W0.clk + 1) : TXoOK(W0.t[act.a], x)}}
+    [] act.op = "smut" /\ W0.mode \in PatX ->
+         LET mem == W0.s[act.a].mem
+         IN {[ts |-> [i \in DOMAIN mem |-> Same(W0, mem[i])], added |-> <<>>],
+             [ts |-> [i \in DOMAIN mem |-> OutRec(mem[i], W0.clk + i, TRUE, TRUE, TRUE)], added |-> <<>>]}
     [] act.op = "smut" ->
          LET mem == W0.s[act.a].mem
              nv  == W0.clk + Len(mem) + 1
@@ -152,6 +162,7 @@ Do(act, out) ==
 
 DepthOf(W0) == IF W0.mode = "T" THEN MaxDepth + ExtraT
                ELSE IF W0.mode \in PatC \cup PatM THEN 5
+               ELSE IF W0.mode \in PatX THEN 8
                ELSE IF W0.mode \in FocusC THEN MaxDepth + ExtraC
                ELSE IF W0.mode \in FocusM THEN MaxDepth + ExtraM ELSE MaxDepth
 Next == /\ TLCGet("level") <= DepthOf(W)
@@ -159,7 +170,17 @@ Next == /\ TLCGet("level") <= DepthOf(W)
 
 (* Initial population: a test held by the caller (with or without a call on the SUT), a suite
    with one member from the chromosome factory; functions of either kind registered or not. *)
+\* two live suites <<2, 3>> and <<4, 5>> of factory tests, a spare test held by the caller
+InitWorldX(mode) ==
+  [t |-> [i \in TIds |-> IF i = 1 THEN NewT(1, TRUE, FFSeq, CFSeq, 0)
+                         ELSE IF i \in 2..5 THEN NewT(i, TRUE, FactoryFF, <<>>, IF i <= 3 THEN 1 ELSE 2)
+                         ELSE DeadT],
+   s |-> [j \in SIds |-> IF j = 1 THEN NewS(<<2, 3>>, FFSeq, CFSeq)
+                         ELSE IF j = 2 THEN NewS(<<4, 5>>, FFSeq, CFSeq) ELSE DeadS],
+   clk |-> 5, mode |-> mode]
+
 InitWorld(mode, sut1, regF, regC) ==
+  IF mode \in PatX THEN InitWorldX(mode) ELSE
   [t |-> [i \in TIds |->
             IF i = 1 THEN NewT(1, sut1, IF regF THEN FFSeq ELSE <<>>, IF regC THEN CFSeq ELSE <<>>, 0)
             ELSE IF i = 2 /\ mode \notin {"T"} \cup FocusC THEN NewT(2, TRUE, FactoryFF, IF mode \in FocusM THEN CFSeq ELSE <<>>, 1)
@@ -171,7 +192,7 @@ InitWorld(mode, sut1, regF, regC) ==
    clk |-> 2, mode |-> mode]
 
 \* the focus modes start with everything registered and a call on the SUT
-InitParams(mode) == IF mode \in FocusC \cup FocusM THEN {<<TRUE, TRUE, TRUE>>}
+InitParams(mode) == IF mode \in FocusC \cup FocusM \cup PatX THEN {<<TRUE, TRUE, TRUE>>}
                     ELSE IF mode = "A" THEN {<<TRUE, TRUE, TRUE>>, <<FALSE, FALSE, TRUE>>}
                     ELSE BOOLEAN \X BOOLEAN \X BOOLEAN
 Init == /\ \E mode \in Modes : \E pr \in InitParams(mode) : W = InitWorld(mode, pr[1], pr[2], pr[3])
@@ -184,6 +205,17 @@ Bound == W.clk <= MaxV
 (* ---- C12 ---- *)
 NeverStale == ~obs.stale
 QueryTotal == obs.reg => ~obs.raised
+
+(* ---- chromosomes own their test cases ---- *)
+\* every member belongs to exactly one suite (part of WorldOK), and a call made on one chromosome
+\* never changes the cached-value inputs (member lists, content versions) of another one
+Owns == OwnedP(W)
+\* (the exact frame, with the call as argument -- CacheOps.IsolatedP -- is checked on every transition
+\*  of MC_Cache, where the call is part of the state, and on the observed objects in CacheTrace)
+TouchedS(W0, W1) == {s \in SIds : W0.s[s].alive /\ W1.s[s].alive /\ SuiteInputs(W1, s) # SuiteInputs(W0, s)}
+TouchedT(W0, W1) == {a \in TIds : /\ W0.t[a].alive /\ W1.t[a].alive /\ W0.t[a].owner = 0 /\ W1.t[a].owner = 0
+                                  /\ W1.t[a].c # W0.t[a].c}
+Isolation == [][Cardinality(TouchedS(W, W')) + Cardinality(TouchedT(W, W')) <= 1]_vars
 
 (* ---- sanity of the model ---- *)
 TypeOK ==
